@@ -1,4 +1,89 @@
+//! C19 — CL03 proof responses statistically mask the secrets they answer for (form C: attacker-side quotients over every
+//! (leaf, challenge, secret) triple and every ordered leaf pair of every explored proof).
+#![allow(non_snake_case)]
+use crate::c17::{collect, Item};
 use crate::common::*;
+use mccore::{int_leaf_paths, json_get, par_for, path_class};
+use rug::{integer::Order, Complete, Integer};
+use serde_json::{json, Value};
+use sha2::{Digest, Sha256};
 use zkryptium::cl03::keys::{CL03PublicKey, CL03SecretKey};
 use zkryptium::schemes::algorithms::{Scheme, CL03};
-pub fn run<CS: Suite>(_env: &Env) where CL03<CS>: Scheme<PubKey = CL03PublicKey, PrivKey = CL03SecretKey>, CS::HashAlg: sha2::Digest {}
+
+fn h(s: String) -> Integer { Integer::from_digits(Sha256::digest(s.as_bytes()).as_slice(), Order::MsfBe) }
+
+/// Fiat-Shamir challenges a recipient can recompute from the proof and public data alone.
+fn challenges<CS: Suite>(w: &World<CS>, it: &Item) -> Vec<(String, Integer)> where CL03<CS>: Scheme<PubKey = CL03PublicKey, PrivKey = CL03SecretKey> {
+    let mut out: Vec<(String, Integer)> = Vec::new();
+    let leaves = int_leaf_paths(&it.proof);
+    for p in &leaves {
+        let last = p.last().unwrap().as_str();
+        let v = leaf_int(json_get(&it.proof, p).unwrap()).unwrap();
+        if last == "challenge" { out.push((format!("/{}", p.join("/")), v)); }
+        else if last == "C" { out.push((format!("/{} mod 2^128", p.join("/")), v.clone() % pow2(128))); out.push((format!("/{}", p.join("/")), v)); }
+    }
+    // nisp2sec: challenge = H(g1 || h1 || commitment.value || t) over decimal strings
+    let get = |v: &Value, k: &str| leaf_int(&v[k]);
+    let cval = |v: &Value| -> Option<Integer> { if v["commitment"].get("value").and_then(|x| x.get("radix")).is_some() { leaf_int(&v["commitment"]["value"]) } else { leaf_int(&v["commitment"]) } };
+    let root = &it.proof["CL03"];
+    if let Some(arr) = root["proofs_commited_mi"].as_array() {
+        for (k, pv) in arr.iter().enumerate() {
+            let i = it.hidden.get(k).copied().unwrap_or(0);
+            let (g, hh) = if it.kind == "issuance" { (w.bases.0[i].clone(), w.pk.b.clone()) } else { (w.cpk.g_bases[i].clone(), w.cpk.h.clone()) };
+            if let (Some(cv), Some(t)) = (cval(pv), get(&pv["value"], "t")) { out.push((format!("recomputed challenge of proofs_commited_mi[{}]", k), h(g.to_string() + &hh.to_string() + &cv.to_string() + &t.to_string()))); }
+        }
+    }
+    if root["proof_r"].is_object() { if let (Some(cv), Some(t)) = (cval(&root["proof_r"]), get(&root["proof_r"]["value"], "t")) { out.push(("recomputed challenge of proof_r".into(), h(w.bases.0[0].to_string() + &w.pk.b.to_string() + &cv.to_string() + &t.to_string()))); } }
+    if root["proof_commited_msgs"].is_object() {
+        if let (Some(t), Some(c)) = (get(&root["proof_commited_msgs"], "t"), it.public_extra.iter().find(|x| x.0 == "C")) {
+            let mut s = String::new(); for &i in &it.hidden { s += &w.bases.0[i].to_string(); }
+            out.push(("recomputed challenge of proof_commited_msgs".into(), h(s + &w.pk.b.to_string() + &c.1.to_string() + &t.to_string())));
+        }
+    }
+    out
+}
+
+pub fn run<CS: Suite>(env: &Env)
+where CL03<CS>: Scheme<PubKey = CL03PublicKey, PrivKey = CL03SecretKey>, CS::HashAlg: sha2::Digest {
+    let maxn = if env.thorough() { 4 } else { 3 };
+    let w: World<CS> = World::generate(maxn);
+    let items = collect::<CS>(env, &w, maxn, "c19");
+    env.ctx.set_rule("every honest issuance proof (all non-empty hidden subsets) and signature proof (all subsets), n <= 3 (thorough 4). S = all integer leaves of the serialized proof; Cset = every Fiat-Shamir challenge a recipient can recompute (explicit challenge / C fields, C mod 2^t, and the hashes the verifier recomputes from public data); X = every secret the prover holds that the harness knows (hidden m_i, e, s, v, commitment randomness r, and any randomness leaf that is present in the proof). For EVERY (s, c, x) in S x Cset x X and EVERY ordered pair (s, s') in S^2: |floor(s/c) - x| >= 2^64 and |floor(s/s') - x| >= 2^64. Additionally floor(s/c) + d, d in -2..=2, is tested as an opening exponent of every embedded commitment. State = (proof, leaf); non-trivial = a quotient was computed against a prover secret.");
+    let bound = pow2(64);
+    par_for(&items, |_, it| {
+        if !env.want(&it.id) || env.ctx.out_of_time() { return; }
+        let leaves = int_leaf_paths(&it.proof);
+        let vals: Vec<(Vec<String>, Integer)> = leaves.iter().map(|p| (p.clone(), leaf_int(json_get(&it.proof, p).unwrap()).unwrap())).collect();
+        let cs = challenges::<CS>(&w, it);
+        let mut secrets = it.secrets.clone();
+        for (p, v) in &vals { if p.last().map(|x| x == "randomness").unwrap_or(false) { secrets.push((format!("randomness leaf /{}", path_class(p)), v.clone())); } }
+        let det0 = json!({"suite": CS::NAME, "proof": it.id, "hidden": it.hidden});
+        let close = |q: &Integer, x: &Integer| (q - x).complete().abs() < bound;
+        for (p, s) in &vals {
+            env.ctx.state(&[it.id.as_bytes(), p.join("/").as_bytes()]);
+            if *s <= 0 { env.ctx.trace(); continue; }
+            for (cn, c) in &cs {
+                if *c <= 0 { continue; }
+                env.ctx.step();
+                let q = Integer::from(s / c);
+                for (xn, x) in &secrets {
+                    if p.last().map(|l| l == "randomness").unwrap_or(false) && xn.starts_with("randomness leaf") { continue; } // a leaf trivially equals itself
+                    if close(&q, x) { env.ctx.violation(&format!("C19:quotient-by-challenge:/{}:{}", path_class(p), xn.split(" m_").next().unwrap_or(xn)), &format!("floor(/{} / {}) is within 2^64 of the prover's secret '{}' (difference {})", p.join("/"), cn, xn, (&q - x).complete()), env.case(&it.id, json!({"base": det0, "response": p.join("/"), "divisor": cn, "secret": xn}))); }
+                }
+            }
+            for (p2, s2) in &vals {
+                if p == p2 || *s2 <= 0 { continue; }
+                env.ctx.step();
+                let q = Integer::from(s / s2);
+                for (xn, x) in &secrets {
+                    if xn.starts_with("randomness leaf") { continue; }
+                    if close(&q, x) { env.ctx.violation(&format!("C19:quotient-by-response:/{} over /{}:{}", path_class(p), path_class(p2), xn.split(" m_").next().unwrap_or(xn)), &format!("floor(/{} / /{}) is within 2^64 of the prover's secret '{}' (difference {})", p.join("/"), p2.join("/"), xn, (&q - x).complete()), env.case(&it.id, json!({"base": det0, "response": p.join("/"), "divisor": p2.join("/"), "secret": xn}))); }
+                }
+            }
+            env.ctx.class(if p.last().map(|l| l.starts_with('s') || l.starts_with('d') || l.starts_with('D')).unwrap_or(false) { "response leaf" } else { "other leaf" });
+            env.ctx.trace();
+        }
+        env.ctx.add_extra("challenges_recomputed", cs.len() as u64);
+        if it.n == 2 && it.hidden == vec![1] { env.ctx.sample(json!({"proof": it.id, "leaves": vals.len(), "challenges": cs.iter().map(|c| c.0.clone()).collect::<Vec<_>>(), "secrets": secrets.iter().map(|s| s.0.clone()).collect::<Vec<_>>()})); }
+    });
+}
